@@ -80,12 +80,78 @@ class ModuleInfo:
         self.path = path
         self.relpath = relpath
         self.source = source
-        self.tree = ast.parse(source, filename=path)
+        self.tree = inline_single_use_temporaries(ast.parse(source, filename=path))
         self.imports = {}       # local name -> ('module', dotted) | ('object', dotted) | ('external', dotted)
         self.functions = {}     # qualname -> FunctionInfo (all, incl. nested & methods)
         self.classes = {}       # qualname -> ClassInfo
         self.constants = {}     # module level simple name -> value expr (last assignment)
         self.toplevel_names = set()
+
+
+def inline_single_use_temporaries(tree):
+    """Normal form for the analysis: `t = <expr>` immediately followed by `if t:` / `if not t:` / a test whose and/or operands include t, where t is a plain local
+    assigned exactly there and read exactly once (in that test), is the same program as `if <expr>:` (introduce/inline explaining variable). The temporary is inlined
+    so that every rule sees the decision the way it is usually written. Nothing else is rewritten."""
+    def scope_bodies(node):
+        for n in ast.walk(node):
+            for field in ("body", "orelse", "finalbody"):
+                sub = getattr(n, field, None)
+                if isinstance(sub, list) and sub and isinstance(sub[0], ast.stmt):
+                    yield sub
+            if isinstance(n, ast.ExceptHandler):
+                yield n.body
+
+    def scopes(tree_):
+        yield tree_
+        for n in ast.walk(tree_):
+            if isinstance(n, (ast.FunctionDef, ast.AsyncFunctionDef)):
+                yield n
+
+    def own_nodes(scope):
+        """nodes of this scope, not descending into nested function/class scopes (but those scopes' names count as uses)"""
+        stack = list(ast.iter_child_nodes(scope))
+        while stack:
+            n = stack.pop()
+            yield n
+            stack.extend(ast.iter_child_nodes(n))
+
+    for scope in scopes(tree):
+        loads, stores = {}, {}
+        for n in own_nodes(scope):
+            if isinstance(n, ast.Name):
+                (loads if isinstance(n.ctx, ast.Load) else stores).setdefault(n.id, []).append(n)
+            elif isinstance(n, (ast.Global, ast.Nonlocal)):
+                for nm in n.names:
+                    stores.setdefault(nm, []).extend([n, n])
+        for body in scope_bodies(scope):
+            i = 0
+            while i + 1 < len(body):
+                a, b = body[i], body[i + 1]
+                if isinstance(a, ast.Assign) and len(a.targets) == 1 and isinstance(a.targets[0], ast.Name) and isinstance(b, (ast.If, ast.While)) is True and isinstance(b, ast.If):
+                    nm = a.targets[0].id
+                    if len(stores.get(nm, [])) == 1 and len(loads.get(nm, [])) == 1 and not any(isinstance(x, (ast.NamedExpr, ast.Yield, ast.YieldFrom, ast.Await)) for x in ast.walk(a.value)):
+                        use = loads[nm][0]
+
+                        def replace_atom(test):
+                            if test is use:
+                                return a.value
+                            if isinstance(test, ast.UnaryOp) and isinstance(test.op, ast.Not):
+                                new = replace_atom(test.operand)
+                                if new is not None:
+                                    test.operand = new
+                                    return test
+                            if isinstance(test, ast.BoolOp) and test.values and test.values[0] is use:
+                                # only the first operand is evaluated unconditionally, like the assignment was
+                                test.values[0] = a.value
+                                return test
+                            return None
+                        new_test = replace_atom(b.test)
+                        if new_test is not None:
+                            b.test = new_test
+                            del body[i]
+                            continue
+                i += 1
+    return tree
 
 
 def set_parents(tree):
